@@ -6,8 +6,8 @@ from .. import env, coq, runner, tables
 
 LEVEL = 'proof'
 META = dict(
-    text='Coq theorems over a hand-written symplectic model of CliffordTableau (rules in the shape of the code): every regenerated rule table (apply_x/y/z/h/cz/cx/_swap over all effective exponents and local patterns, g, _rowsum) equals the model; each local rule is conjugation by the documented gate matrix (generic commutative ring with i, 1/2, 1/sqrt2, any global shift), lifted to n qubits and to whole circuits (every tableau row is U P U^dagger; stabilizers stabilize the evolved state); the 24 single-qubit Cliffords form the group their matrices form.  On every run the model is evaluated by vm_compute against the implementation after every gate and measurement branch of random Clifford circuits, and spec-level oracles on the real code compare stabilizers, CH-form amplitudes (with phase), measurement probabilities of every branch and the CliffordGate group laws with numpy matrices.',
-    note='Trusted: Coq kernel; docstring matrices in coq/Gates/GateSpecs.v; vf/tables_c13.py (exhaustive evaluation of the rules, fail closed); the Python adapters and the numpy reference simulation in vf/checks/c13.py (cirq.unitary of each gate, tensordot, projectors). _measure, then and inverse are modelled and compared exactly but proved only in part (see DESIGN C13); the CH form is compared with the reference state vector, not proved.',
+    text='Coq theorems over a hand-written symplectic model of CliffordTableau (rules in the shape of the code): every regenerated rule table (apply_x/y/z/h/cz/cx/_swap over all effective exponents and local patterns, g, _rowsum) equals the model; each local rule is conjugation by the documented gate matrix (generic commutative ring with i, 1/2, 1/sqrt2, any global shift), lifted to n qubits and to whole circuits (every tableau row is U P U^dagger; stabilizers stabilize the evolved state); the 24 single-qubit Cliffords form the group their matrices form; the padded tableau of a multi-qubit CliffordGate object is the tableau of its circuit placed on the chosen axes in the order given (any k, n, axes); kron / reindex of the CH form permute and multiply amplitudes (exact, small n).  On every run the model is evaluated by vm_compute against the implementation after every gate and measurement branch of random Clifford circuits, and spec-level oracles on the real code compare stabilizers, CH-form amplitudes (with phase), measurement probabilities of every branch and the CliffordGate group laws with numpy matrices.',
+    note='Trusted: Coq kernel; docstring matrices in coq/Gates/GateSpecs.v; vf/tables_c13.py (exhaustive evaluation of the rules, fail closed); the Python adapters and the numpy reference simulation in vf/checks/c13.py (cirq.unitary of each gate, tensordot, projectors). _measure, then and inverse are modelled and compared exactly but proved only in part (see DESIGN C13); the CH form (with kron / reindex) is compared with the reference state vector and proved only for short circuits on <= 3 qubits.',
     technique='Rocq/Coq proof over regenerated rule tables + vm_compute correspondence + exact branch enumeration with a scripted seed object',
 )
 
@@ -144,14 +144,61 @@ def draw_derived(rng, n):
     """Clifford operations the stabilizer states execute through decomposition (compared with the reference only)."""
     names = ['I', 'SQC', 'PhX', 'PhXZ', 'Mat', 'Rx', 'DPS']
     if n >= 2:
-        names += ['ISWAP', 'CY', 'XX', 'YY', 'ZZ', 'CG2', 'PS']
+        names += ['ISWAP', 'CY', 'XX', 'YY', 'ZZ', 'CG2', 'PS', 'CGN', 'CGN']
     name = rng.choice(names)
     two = name in ('ISWAP', 'CY', 'XX', 'YY', 'ZZ', 'CG2', 'PS')
     axes = rng.sample(range(n), 2) if two else [rng.randrange(n)]
     if name == 'DPS':
         axes = list(range(n))
-    return dict(kind='d', name=name, axes=axes, a=rng.randrange(24), b=rng.randrange(-3, 5), c=rng.randrange(4),
-                word=[rng.randrange(5) for _ in range(rng.randrange(1, 7))])
+    op = dict(kind='d', name=name, axes=axes, a=rng.randrange(24), b=rng.randrange(-3, 5), c=rng.randrange(4),
+              word=[rng.randrange(5) for _ in range(rng.randrange(1, 7))])
+    if name == 'CGN':            # a multi-qubit CliffordGate object on k of the n qubits (half of the time on all of them), any order
+        k = min(n, 4) if rng.random() < 0.5 else rng.randint(2, min(n, 4))
+        op.update(axes=rng.sample(range(n), k), spec=draw_cg_spec(rng, k))
+    return op
+
+
+# ---- multi-qubit cirq.CliffordGate objects.  A spec is {'k', 'named'} (a gate cirq names) or {'k', 'word'} (from_op_list
+# of a word over H_i, S_i, CX_ij on k qubits); its reference matrix is the numpy product of the generator matrices.
+NAMED_CG = {'CNOT': [('CX', [0, 1])], 'CZ': [('CZ', [0, 1])], 'SWAP': [('SWAP', [0, 1])],
+            'CXSWAP': [('CX', [0, 1]), ('SWAP', [0, 1])], 'CZSWAP': [('CZ', [0, 1]), ('SWAP', [0, 1])]}
+
+
+def cg_gens(k):
+    return [('H', [i]) for i in range(k)] + [('S', [i]) for i in range(k)] + [('CX', [i, j]) for i in range(k) for j in range(k) if i != j]
+
+
+def draw_cg_spec(rng, k, minlen=2):
+    if k == 2 and rng.random() < 0.4:
+        return dict(k=2, named=rng.choice(sorted(NAMED_CG)))
+    m = len(cg_gens(k))
+    return dict(k=k, word=[rng.randrange(m) for _ in range(rng.randint(minlen, 4 * k))])
+
+
+def cg_gate(cirq, spec):
+    """(the CliffordGate of the spec, its reference matrix from numpy products of generator matrices)."""
+    k = spec['k']
+    if 'named' in spec:
+        nm = spec['named']
+        gate = getattr(cirq.CliffordGate, nm) if hasattr(cirq.CliffordGate, nm) else getattr(cirq, nm)
+        word = NAMED_CG[nm]
+    else:
+        gens = cg_gens(k)
+        word = [gens[i] for i in spec['word']]
+        q = cirq.LineQubit.range(k)
+        mk = {'H': cirq.H, 'S': cirq.S, 'CX': cirq.CNOT}
+        gate = cirq.CliffordGate.from_op_list([mk[nm].on(*[q[a] for a in ax]) for nm, ax in word], q)
+    u = np.eye(2 ** k, dtype=complex)
+    for nm, ax in word:
+        u = embed(gen_unitary(cirq, nm), ax, k) @ u
+    return gate, u
+
+
+def cg_text(spec):
+    if 'named' in spec:
+        return 'CliffordGate.' + spec['named'] if spec['named'] in ('CNOT', 'CZ', 'SWAP') else 'cirq.' + spec['named']
+    gens = cg_gens(spec['k'])
+    return 'from_op_list[' + ' '.join(f'{gens[i][0]}{"".join(str(a) for a in gens[i][1])}' for i in spec['word']) + ']'
 
 
 def make_gate(cirq, op):
@@ -189,6 +236,8 @@ def make_gate(cirq, op):
         return cirq.CliffordGate.from_op_list([gens[i] for i in op['word']], q)
     if nm == 'PS':
         return None
+    if nm == 'CGN':
+        return cg_gate(cirq, op['spec'])[0]
     raise KeyError(nm)
 
 
@@ -277,7 +326,7 @@ def describe_ops(ops, limit=420):
         if op['kind'] in ('m', 'r'):
             out.append(('M' if op['kind'] == 'm' else 'Reset') + f'({ax})')
         elif op['kind'] == 'd':
-            out.append(f'{op["name"]}({ax})')
+            out.append((cg_text(op['spec']) if op['name'] == 'CGN' else op['name']) + f'({ax})')
         elif op['fam'] == 'PH':
             out.append('Phase')
         else:
@@ -401,7 +450,16 @@ def walk(ctx, cirq, case, report=True):
             cirq.act_on(o, cs)
             u = cirq.unitary(o)
             psi = ref_apply(psi, u, [qubits.index(q) for q in o.qubits], n) if o.qubits else psi * complex(u.reshape(-1)[0])
-            steps.append(f'SG {op_cgate(op)} (Some {tab_lit(ts.tableau)})' if op['kind'] == 'g' else f'SSkip {tab_lit(ts.tableau)}')
+            if op['kind'] == 'd' and op['name'] == 'CGN':
+                # a CliffordGate object acts on the tableau by then(padded tableau): replayed through the model (pad_tab, tab_then)
+                gate, uref = cg_gate(cirq, op['spec'])
+                steps.append(f'SCG {op["spec"]["k"]} {tab_lit(gate.clifford_tableau)} ([{";".join(str(a) for a in op["axes"])}])%nat {tab_lit(ts.tableau)}')
+                if not phase_equal(np.asarray(cirq.unitary(gate)), uref) or not tableau_matches_unitary(gate.clifford_tableau, uref):
+                    fails.append(('cgate-unitary', 'CGN', f'{cg_text(op["spec"])}: unitary / tableau of the CliffordGate is not the product of its generators\' matrices'))
+                ctx.count('cgate_act_on', [case['id'], k], len(op['axes']) == n and op['axes'] != sorted(op['axes']),
+                          sample=dict(n=n, gate=cg_text(op['spec']), on=op['axes']))
+            else:
+                steps.append(f'SG {op_cgate(op)} (Some {tab_lit(ts.tableau)})' if op['kind'] == 'g' else f'SSkip {tab_lit(ts.tableau)}')
             chsteps.append(f'HG {op_cgate(op)} {fcl(op_phase(op))} (Some {ch_coq(cs.state)})' if op['kind'] == 'g' else f'HSkip {ch_coq(cs.state)}')
             if not case.get('trim') or trimmed or k + 1 >= len(ops) or ops[k + 1]['kind'] not in ('g', 'd'):
                 oracles(label)         # (a trimmed case is judged from the end of its gate prefix onwards)
@@ -609,6 +667,102 @@ def entangled_stream(ctx, cirq, fixed, count):
     frng = random.Random(0xC13)
     cases = [gen_entangled_case(frng, f'f{i}') for i in range(fixed)] + [gen_entangled_case(ctx.rng, f'e{i}') for i in range(count)]
     walk_cases(ctx, cirq, cases, 'ent', chmodel=False)
+
+
+def cg_fixed_specs():
+    """The CliffordGate objects of the fixed grids (independent of VERIF_SEED): every gate cirq names and words on 2, 3, 4 qubits."""
+    frng = random.Random(0xC6)
+    specs = [dict(k=2, named=nm) for nm in sorted(NAMED_CG)]
+    for k, cnt in ((2, 3), (3, 4), (4, 1)):
+        specs += [draw_cg_spec_word(frng, k) for _ in range(cnt)]
+    return specs
+
+
+def draw_cg_spec_word(rng, k):
+    m = len(cg_gens(k))
+    return dict(k=k, word=[rng.randrange(m) for _ in range(rng.randint(2 * k, 4 * k))])
+
+
+def cg_target_orders(k, n):
+    """Every ordered choice of k of n qubits (k <= 3); for k = 4 the rotations, the reversal and two more orders."""
+    if k <= 3:
+        return [list(p) for p in itertools.permutations(range(n), k)]
+    return [[(i + r) % 4 for i in range(4)] for r in range(4)] + [[3, 2, 1, 0], [1, 0, 3, 2], [2, 0, 3, 1], [0, 2, 1, 3]]
+
+
+def cgate_order_stream(ctx, cirq, count):
+    """Multi-qubit CliffordGate objects applied through act_on to stabilizer states in every qubit order: for every fixed
+    spec, the register of exactly the gate's width and of one more qubit, every ordered choice of target qubits, after a
+    random Clifford prefix; then `count` VERIF_SEED cases.  Judged by the walk oracles (stabilizers / CH-form amplitudes
+    against the numpy reference, the Coq model of then(pad) bit for bit)."""
+    frng = random.Random(0xC60)
+    cases = []
+    for si, spec in enumerate(cg_fixed_specs()):
+        k = spec['k']
+        for n in ((k, k + 1) if k < 4 else (k,)):
+            if k == 3 and n == 4 and si % 2:          # (half of the three-qubit words on the four-qubit register)
+                continue
+            for targets in cg_target_orders(k, n):
+                ops = [draw_op(frng, n, allow_derived=False) for _ in range(n + 2)]
+                ops.append(dict(kind='d', name='CGN', axes=targets, spec=spec, a=0, b=0, c=0, word=[]))
+                ops.append(draw_op(frng, n, allow_derived=False))
+                k2 = frng.randint(2, min(n, 3))
+                ops.append(dict(kind='d', name='CGN', axes=frng.sample(range(n), k2), spec=draw_cg_spec(frng, k2), a=0, b=0, c=0, word=[]))
+                cases.append(dict(id=f'cg{si}n{n}o{"".join(map(str, targets))}', n=n, init=frng.randrange(2 ** n) if frng.random() < 0.3 else 0, ops=ops))
+    for i in range(count):
+        n = ctx.rng.choice([2, 3, 3, 4, 4, 5])
+        ops = []
+        for _ in range(ctx.rng.randint(4, 10)):
+            if ctx.rng.random() < 0.35:
+                k = min(n, 4) if ctx.rng.random() < 0.6 else ctx.rng.randint(2, min(n, 4))
+                ops.append(dict(kind='d', name='CGN', axes=ctx.rng.sample(range(n), k), spec=draw_cg_spec(ctx.rng, k), a=0, b=0, c=0, word=[]))
+            elif ctx.rng.random() < 0.1:
+                ops.append(dict(kind='m', axes=[ctx.rng.randrange(n)], bit=ctx.rng.randrange(2)))
+            else:
+                ops.append(draw_op(ctx.rng, n, allow_derived=False))
+        cases.append(dict(id=f'cgr{i}', n=n, init=ctx.rng.randrange(2 ** n) if ctx.rng.random() < 0.3 else 0, ops=ops))
+    walk_cases(ctx, cirq, cases, 'cgate', chmodel=False)
+
+
+def oplist_stream(ctx, cirq, count):
+    """CliffordGate.from_op_list over op lists that contain multi-qubit CliffordGate operations with their qubits in
+    every order, and with a qubit_order that is itself a permutation: the result must conjugate like the numpy product of
+    the operations' matrices taken in that qubit order (then the other group laws of check_element)."""
+    frng = random.Random(0xC61)
+    todo = []
+    for spec in cg_fixed_specs():
+        k = spec['k']
+        if k > 3:
+            continue
+        for n in (k, k + 1):
+            for targets in cg_target_orders(k, n):
+                todo.append((frng, spec, n, targets))
+    for _ in range(count):
+        n = ctx.rng.choice([2, 3, 3, 4])
+        k = ctx.rng.randint(2, min(n, 3))
+        todo.append((ctx.rng, draw_cg_spec(ctx.rng, k), n, ctx.rng.sample(range(n), k)))
+    for rng, spec, n, targets in todo:
+        order = list(range(n))
+        if rng.random() < 0.5:
+            rng.shuffle(order)
+        pre = [draw_op(rng, n, allow_derived=False) for _ in range(rng.randint(0, 3))]
+        post = [draw_op(rng, n, allow_derived=False) for _ in range(rng.randint(0, 2))]
+        oplist_case(ctx, cirq, dict(kind='oplist', spec=spec, n=n, targets=targets, order=order, pre=pre, post=post))
+
+
+def oplist_case(ctx, cirq, d):
+    spec, n, targets, order, pre, post = d['spec'], d['n'], d['targets'], d['order'], d['pre'], d['post']
+    qs = cirq.LineQubit.range(n)
+    gate, _ = cg_gate(cirq, spec)
+    ops = [make_operation(cirq, o, qs) for o in pre] + [gate.on(*[qs[a] for a in targets])] + [make_operation(cirq, o, qs) for o in post]
+    u = np.eye(2 ** n, dtype=complex)
+    for o in ops:
+        m = np.asarray(cirq.unitary(o))
+        u = (embed(m, [order.index(q.x) for q in o.qubits], n) if o.qubits else complex(m.reshape(-1)[0]) * np.eye(2 ** n)) @ u
+    key = f'from_op_list([{describe_ops(pre, 150)} ; {cg_text(spec)}({",".join(map(str, targets))}) ; {describe_ops(post, 100)}], qubit_order={order})'
+    built = cirq.CliffordGate.from_op_list(ops, [qs[i] for i in order])
+    check_element(ctx, cirq, 'group_oplist', n, built, u, key, 'groupn', full=n <= 3, replay=d)
+    ctx.count('group_oplist', key, targets != sorted(targets) or order != sorted(order), sample=dict(n=n, ops=key[:200]))
 
 
 def walk_cases(ctx, cirq, case_list, name, chmodel=True):
@@ -866,12 +1020,12 @@ def gen_unitary(cirq, name):
     return np.asarray(cirq.unitary({'H': cirq.H, 'S': cirq.S, 'CX': cirq.CNOT, 'CZ': cirq.CZ, 'X': cirq.X, 'Y': cirq.Y ** 0.5, 'SWAP': cirq.SWAP}[name]))
 
 
-def check_element(ctx, cirq, stream, n, gate, u, key, law_prefix, full=True):
+def check_element(ctx, cirq, stream, n, gate, u, key, law_prefix, full=True, replay=None):
     """gate: CliffordGate whose reference matrix is u (built from numpy products of generator matrices)."""
     qs = cirq.LineQubit.range(n)
 
     def bad(law, what):
-        ctx.violation(f'{law_prefix}:{law}', f'{n}-qubit Clifford {key}: {what}', dict(kind='group', n=n, key=key, law=law))
+        ctx.violation(f'{law_prefix}:{law}', f'{n}-qubit Clifford {key}: {what}', replay or dict(kind='group', n=n, key=key, law=law))
 
     t = gate.clifford_tableau
     if not tableau_matches_unitary(t, u):
@@ -1091,6 +1245,25 @@ def e2e_entangled(ctx, cirq, fixed, count):
                 done += 1
 
 
+def e2e_cgate(ctx, cirq):
+    """The simulators end to end (every script) on circuits whose only entangling operation is a multi-qubit CliffordGate
+    object spanning the whole register, its qubits given in every order; all qubits measured.  Independent of VERIF_SEED."""
+    frng = random.Random(0xC62)
+    for spec in cg_fixed_specs():
+        k = spec['k']
+        if k > 3:
+            continue
+        for targets in cg_target_orders(k, k):
+            ops = []
+            for q in range(k):
+                ops.append(G(frng.choice(['X', 'H', 'X', 'Y']), 4, [q]) if frng.random() < 0.8 else G('Z', 2, [q]))
+            ops.append(dict(kind='d', name='CGN', axes=targets, spec=spec, a=0, b=0, c=0, word=[]))
+            order = list(range(k))
+            frng.shuffle(order)
+            ops += [dict(kind='m', axes=order[:1]), dict(kind='m', axes=order[1:])]
+            e2e_case(ctx, cirq, dict(n=k, ops=ops))
+
+
 def e2e_case(ctx, cirq, case, cap=160):
     n, ops = case['n'], case['ops']
     circuit, keys, qubits = e2e_circuit(cirq, n, ops)
@@ -1111,8 +1284,13 @@ def e2e_case(ctx, cirq, case, cap=160):
         r = cirq.StabilizerSampler(seed=s).run(circuit, repetitions=1)
         return rec_of(r.measurements), None
 
+    def run_split(s):
+        r = cirq.CliffordSimulator(seed=s, split_untangled_states=True).simulate(circuit, qubit_order=qubits)
+        return rec_of(r.measurements), r.final_state.state_vector()
+
     results = {}
-    for name, f in (('CliffordSimulator.simulate', run_sim), ('CliffordSimulator.run', run_run), ('StabilizerSampler.run', run_sampler)):
+    for name, f in (('CliffordSimulator.simulate', run_sim), ('CliffordSimulator.run', run_run), ('StabilizerSampler.run', run_sampler),
+                    ('CliffordSimulator(split_untangled_states=True).simulate', run_split)):
         leaves = dfs_scripts(f, cap)
         if leaves is None:
             return None
@@ -1132,6 +1310,281 @@ def e2e_case(ctx, cirq, case, cap=160):
                               dict(kind='e2e', case=case))
     ctx.count('e2e_circuit', repr(case), True, sample=dict(n=n, circuit=str(circuit).splitlines()[:4], outcomes=len(want)))
     return True
+
+
+# ------------------------------------------------------------------ CH forms joined (kron) and reordered (reindex)
+def gen_join_case(rng, cid, n=None, chain=None):
+    """A program for join_walk: every qubit starts as its own one-qubit CH-form state with a single-qubit preparation that
+    tells the qubits apart; two-qubit gates along `chain` join the states in that order (the sub-state's internal qubit
+    order is the chain, whatever the canonical order is); then more gates, explicit transpositions to other orders, swaps
+    of qubit labels and joins of states that no gate connects; finally everything is joined and put in canonical order."""
+    n = n or rng.choice([3, 3, 4, 4, 5])
+    init = rng.randrange(2 ** n) if rng.random() < 0.4 else 0
+    chain = list(chain) if chain is not None else rng.sample(range(n), rng.randint(2, n))
+    one = lambda q: G(rng.choice('XYZH'), 4, [q], rng.choice(SHIFTS)) if rng.random() < 0.5 else G(rng.choice('XYZ'), 2 * rng.choice([1, 3, -1, 5]), [q], rng.choice(SHIFTS))
+    prog = []
+    for q in range(n):
+        prog += [one(q) for _ in range(rng.randint(1, 2))]
+    for a, b in zip(chain, chain[1:]):
+        pair = [a, b] if rng.random() < 0.7 else [b, a]
+        prog.append(G(rng.choice(['CX', 'CZ', 'CX', 'SWAP']), 4, pair, rng.choice(SHIFTS)))
+        if rng.random() < 0.5:
+            prog.append(one(rng.choice(pair)))
+    prog.append(dict(kind='t', block=chain[0], perm=rot_or_random(rng, len(chain))))
+    for _ in range(rng.randint(2, 6)):
+        r = rng.random()
+        if r < 0.3:
+            prog.append(draw_op(rng, n, allow_derived=False))
+        elif r < 0.55:
+            prog.append(dict(kind='t', block=rng.randrange(n), perm=None, seed=rng.randrange(10 ** 6)))
+        elif r < 0.7:
+            prog.append(dict(kind='j', a=rng.randrange(n), b=rng.randrange(n), inplace=rng.random() < 0.5))
+        elif r < 0.8:
+            prog.append(dict(kind='w', a=rng.randrange(n), b=rng.randrange(n)))
+        else:
+            prog.append(one(rng.randrange(n)))
+    prog.append(dict(kind='merge'))
+    return dict(id=cid, n=n, init=init, prog=prog)
+
+
+def rot_or_random(rng, k):
+    """A permutation of range(k): a cyclic rotation (not its own inverse for k >= 3) half of the time."""
+    if rng.random() < 0.5 and k >= 2:
+        r = rng.randrange(1, k)
+        return [(i + r) % k for i in range(k)]
+    p = list(range(k))
+    rng.shuffle(p)
+    return p
+
+
+def describe_prog(prog, limit=420):
+    out = []
+    for st in prog:
+        if st['kind'] == 't':
+            out.append(f'Transpose(block of {st["block"]}, perm {st["perm"] if st.get("perm") is not None else "#%d" % st["seed"]})')
+        elif st['kind'] == 'j':
+            out.append(f'Kron({st["a"]},{st["b"]})')
+        elif st['kind'] == 'w':
+            out.append(f'SwapLabels({st["a"]},{st["b"]})')
+        elif st['kind'] == 'merge':
+            out.append('MergeAll')
+        else:
+            out.append(describe_ops([st]))
+    text = ' '.join(out)
+    return text if len(text) <= limit else '... ' + text[-limit:]
+
+
+def join_walk(ctx, cirq, case):
+    """Run a join program on real StabilizerChFormSimulationState objects (kronecker_product, transpose_to_qubit_order, swap,
+    act_on) and on the numpy reference.  After every step the numpy Kronecker product of the sub-states' state_vector()s,
+    transposed from their qubit lists to the canonical order, must equal the reference state, global phase included.
+    Returns (one-step traces for the Coq model of kron / reindex, failures)."""
+    n, init, prog = case['n'], case['init'], case['prog']
+    qubits = cirq.LineQubit.range(n)
+    blocks = {i: cirq.StabilizerChFormSimulationState(qubits=[qubits[i]], prng=Script(), initial_state=(init >> (n - 1 - i)) & 1) for i in range(n)}
+    psi = np.zeros(2 ** n, dtype=complex)
+    psi[init] = 1
+    jsteps, fails = [], FailList()
+
+    def distinct():
+        seen, out = set(), []
+        for i in range(n):
+            if id(blocks[i]) not in seen:
+                seen.add(id(blocks[i]))
+                out.append(blocks[i])
+        return out
+
+    def assemble():
+        v, qs = np.ones(1, dtype=complex), []
+        for b in distinct():
+            v = np.kron(v, b.state.state_vector())
+            qs += [q.x for q in b.qubits]
+        if sorted(qs) != list(range(n)):
+            return None
+        return np.transpose(v.reshape((2,) * n), [qs.index(j) for j in range(n)]).reshape(-1)
+
+    def oracle(label, what):
+        got = assemble()
+        if got is None or not np.allclose(got, psi, atol=ATOL):
+            kind = 'chjoin-phase' if got is not None and phase_equal(got, psi) else 'chjoin-state'
+            orders = ' '.join('[' + ','.join(str(q.x) for q in b.qubits) + ']' for b in distinct())
+            diff = 'qubit lists do not partition the register' if got is None else f'max diff {np.max(np.abs(got - psi)):.3g}'
+            fails.append((kind, label, f'after {what} the CH-form sub-states (qubit orders {orders}) do not give the reference state ({diff})'))
+        ctx.count('chjoin_step', [case['id'], fails.k], label != 'gate', sample=dict(n=n, step=what))
+
+    def join(a, b, inplace=True):
+        A, Bk = blocks[a], blocks[b]
+        if A is Bk:
+            return A
+        before, other, n1, n2 = ch_coq(A.state), ch_coq(Bk.state), len(A.qubits), len(Bk.qubits)
+        keep = A.state.state_vector()
+        J = A.kronecker_product(Bk, inplace=inplace)
+        if not inplace and (len(A.qubits) != n1 or not np.allclose(A.state.state_vector(), keep, atol=ATOL)):
+            fails.append(('chjoin-state', 'kron', 'kronecker_product(inplace=False) modified its receiver'))
+        jsteps.append(f'({before}, JKron {n1} {n2} {other} {ch_coq(J.state)})')
+        for q in J.qubits:
+            blocks[q.x] = J
+        return J
+
+    def transpose(blk, order, inplace=True):
+        axes = [[q.x for q in blk.qubits].index(x) for x in order]
+        before = ch_coq(blk.state)
+        sv = blk.state.state_vector()
+        direct = blk.state.reindex(axes)                     # StabilizerStateChForm.reindex called directly
+        want = np.transpose(sv.reshape((2,) * len(axes)), axes).reshape(-1)
+        if not np.allclose(direct.state_vector(), want, atol=ATOL):
+            fails.append(('chjoin-state', 'reindex', f'StabilizerStateChForm.reindex({axes}).state_vector() is not the state vector with its axes transposed by {axes}'))
+        T = blk.transpose_to_qubit_order([qubits[x] for x in order], inplace=inplace)
+        jsteps.append(f'({before}, JReindex ([{";".join(str(a) for a in axes)}])%nat {ch_coq(T.state)})')
+        if [q.x for q in T.qubits] != list(order):
+            fails.append(('chjoin-state', 'reindex', f'transpose_to_qubit_order({order}) leaves qubits {[q.x for q in T.qubits]}'))
+        for q in T.qubits:
+            blocks[q.x] = T
+        ctx.count('chjoin_reindex', [case['id'], fails.k], len(axes) >= 3 and [axes[a] for a in axes] != list(range(len(axes))),
+                  sample=dict(n=n, block=[q.x for q in blk.qubits], order=list(order)))
+        return T
+
+    for k, st in enumerate(prog):
+        fails.k = k
+        kind = st['kind']
+        if kind == 'g':
+            o = make_operation(cirq, st, qubits)
+            blk = None
+            for q in o.qubits:            # as SimulationProductState does: the first qubit's state absorbs the others in turn
+                blk = blocks[q.x] if blk is None else (blk if q in blk.qubits else join([x.x for x in blk.qubits][0], q.x))
+            u = cirq.unitary(o)
+            if o.qubits:
+                cirq.act_on(o, blk)
+                psi = ref_apply(psi, u, [q.x for q in o.qubits], n)
+            else:
+                cirq.act_on(o, blocks[0])
+                psi = psi * complex(u.reshape(-1)[0])
+            oracle('gate', describe_ops([st]))
+        elif kind == 't':
+            blk = blocks[st['block']]
+            cur = [q.x for q in blk.qubits]
+            perm = st.get('perm')
+            if perm is None or len(perm) != len(cur):
+                perm = rot_or_random(random.Random(st.get('seed', 0)), len(cur))
+            order = [cur[i] for i in perm]
+            transpose(blk, order, inplace=st.get('seed', 0) % 3 != 0)
+            oracle('reindex', f'transpose_to_qubit_order of [{",".join(map(str, cur))}] to [{",".join(map(str, order))}]')
+        elif kind == 'j':
+            if blocks[st['a']] is not blocks[st['b']]:
+                join(st['a'], st['b'], st.get('inplace', True))
+                oracle('kron', f'kronecker_product of the states of qubits {st["a"]} and {st["b"]}')
+        elif kind == 'w':
+            a, b = st['a'], st['b']
+            if a != b and blocks[a] is blocks[b]:
+                blocks[a].swap(qubits[a], qubits[b], inplace=True)
+                psi = ref_apply(psi, gen_unitary(cirq, 'SWAP'), [a, b], n)
+                oracle('swap', f'swap of the labels of qubits {a} and {b}')
+        elif kind == 'merge':            # as create_merged_state does
+            m = blocks[0]
+            for b in distinct()[1:]:
+                m = join([q.x for q in m.qubits][0], [q.x for q in b.qubits][0])
+            cur = [q.x for q in m.qubits]
+            T = transpose(m, list(range(n)))
+            oracle('reindex', f'merging all sub-states (order [{",".join(map(str, cur))}]) and transposing to the canonical order')
+            if not np.allclose(T.state.state_vector(), psi, atol=ATOL):
+                fails.append(('chjoin-state', 'reindex', f'the merged state transposed from [{",".join(map(str, cur))}] to canonical order differs from the reference state'))
+    return jsteps, fails
+
+
+def eval_joins(ctx, name, jsteps, shard=150):
+    head = ('From Coq Require Import List Bool ZArith PrimFloat.\nFrom VF Require Import Base.FloatInst Cliff.Tableau Cliff.CHForm Cliff.CHFormHarness Cliff.CHFormJoin.\n'
+            'Import ListNotations.\nOpen Scope nat_scope.\n')
+    items = [(f'c13_{name}_{ctx.seed}_{s}', head + 'Definition steps : list (chst (K:=FC) * jstep) := [\n' + ';\n'.join(jsteps[s:s + shard]) + '].\n'
+              'Eval vm_compute in bad_joins steps.\n', s) for s in range(0, len(jsteps), shard)]
+    if not items:
+        return []
+    coq.make(['Cliff/CHFormJoin.vo'])
+    with ThreadPoolExecutor(max_workers=6) as ex:
+        outs = list(ex.map(lambda it: coq.coq_eval(it[0], it[1]), items))
+    bad = []
+    for (nm, _, s), out in zip(items, outs):
+        vals = coq.parse_evals(out)
+        assert len(vals) == 1, out[-500:]
+        bad += [s + i for i in coq.parse_nat_list(vals[0])]
+    return bad
+
+
+def join_stream(ctx, cirq, count):
+    """Fixed grid (independent of VERIF_SEED): every join order (chain) of all 3 and all 4 qubits and the rotations of 5,
+    then `count` VERIF_SEED programs."""
+    frng = random.Random(0xC63)
+    cases = []
+    for n in (3, 4):
+        cases += [gen_join_case(frng, f'jf{n}_{"".join(map(str, p))}', n, p) for p in itertools.permutations(range(n))]
+    cases += [gen_join_case(frng, f'jf5_{r}', 5, [(i + r) % 5 for i in range(5)]) for r in range(1, 5)]
+    cases += [gen_join_case(ctx.rng, f'jr{i}') for i in range(count)]
+    all_steps, owner = [], []
+    for case in cases:
+        jsteps, fails = join_walk(ctx, cirq, case)
+        for kind, label, what, k in fails:
+            ctx.violation(f'{kind}:{label}', f'n={case["n"]} init={case["init"]}: {what}; program up to this step: {describe_prog(case["prog"][:k + 1])}',
+                          dict(kind='join', case=case))
+        all_steps += jsteps
+        owner += [case['id']] * len(jsteps)
+    for i in eval_joins(ctx, 'join', all_steps):
+        ctx.mark_broken('correspondence:chjoin_step', f'program {owner[i]}: model and implementation kron / reindex differ: {all_steps[i][:400]}')
+
+
+def split_circuit(cirq, case):
+    """The circuit of a join program (gates only), one operation per moment."""
+    qubits = cirq.LineQubit.range(case['n'])
+    ops = [st for st in case['prog'] if st['kind'] == 'g']
+    return cirq.Circuit([cirq.Moment([make_operation(cirq, st, qubits)]) for st in ops] + [cirq.Moment(cirq.I.on_each(*qubits))]), ops, qubits
+
+
+def split_case(ctx, cirq, case):
+    """CliffordSimulator(split_untangled_states=True) on the gates of a join program: the state of every step
+    (simulate_moment_steps) and the final state must equal the numpy reference, for the canonical qubit order and for a
+    second, permuted qubit_order."""
+    n, init = case['n'], case['init']
+    circuit, ops, qubits = split_circuit(cirq, case)
+    psi = np.zeros(2 ** n, dtype=complex)
+    psi[init] = 1
+    refs = []
+    for st in ops:
+        o = make_operation(cirq, st, qubits)
+        u = cirq.unitary(o)
+        psi = ref_apply(psi, u, [q.x for q in o.qubits], n) if o.qubits else psi * complex(u.reshape(-1)[0])
+        refs.append(psi)
+    refs.append(psi)
+    for order in (list(range(n)), case.get('order') or list(range(n))[1:] + [0]):
+        qo = [qubits[i] for i in order]
+        init_o = sum(((init >> (n - 1 - q)) & 1) << (n - 1 - j) for j, q in enumerate(order))
+        tr = lambda v: np.transpose(v.reshape((2,) * n), order).reshape(-1)
+        sim = cirq.CliffordSimulator(seed=Script(), split_untangled_states=True)
+        bad, badsv = None, None
+        for k, step in enumerate(sim.simulate_moment_steps(circuit, qubit_order=qo, initial_state=init_o)):
+            sv = step.state.state_vector()
+            ctx.count('split_step', [case['id'], order, k], k < len(ops), sample=dict(n=n, qubit_order=order, step=k))
+            if bad is None and not np.allclose(sv, tr(refs[k]), atol=ATOL):
+                bad, badsv = k, sv
+        final = cirq.CliffordSimulator(seed=Script(), split_untangled_states=True).simulate(circuit, qubit_order=qo, initial_state=init_o).final_state.state_vector()
+        if bad is not None:
+            ctx.violation('split:step-state', f'CliffordSimulator(split_untangled_states=True).simulate_moment_steps, qubit_order={order}, initial_state={init_o}: the state after moment {bad} '
+                          f'is {cirq.dirac_notation(badsv)} but the reference state is {cirq.dirac_notation(tr(refs[bad]))}; n={n} circuit: {describe_ops(ops[:bad + 1])}', dict(kind='split', case=case))
+        if not np.allclose(final, tr(refs[-1]), atol=ATOL):
+            ctx.violation('split:final-state', f'CliffordSimulator(split_untangled_states=True).simulate(...).final_state.state_vector(), qubit_order={order}, initial_state={init_o}: '
+                          f'{cirq.dirac_notation(final)} but the reference state is {cirq.dirac_notation(tr(refs[-1]))}; n={n} circuit: {describe_ops(ops)}', dict(kind='split', case=case))
+
+
+def split_stream(ctx, cirq, count):
+    """The same grid of join orders through the real simulator with split_untangled_states=True, then VERIF_SEED cases."""
+    frng = random.Random(0xC64)
+    cases = []
+    for n in (3, 4):
+        cases += [gen_join_case(frng, f'sf{n}_{"".join(map(str, p))}', n, p) for p in itertools.permutations(range(n))]
+    cases += [gen_join_case(frng, f'sf5_{r}', 5, [(i + r) % 5 for i in range(5)]) for r in range(1, 5)]
+    for i in range(count):
+        c = gen_join_case(ctx.rng, f'sr{i}')
+        c['order'] = rot_or_random(ctx.rng, c['n'])
+        cases.append(c)
+    for case in cases:
+        split_case(ctx, cirq, case)
 
 
 # ------------------------------------------------------------------ integer seeds handed to measure()
@@ -1164,7 +1617,14 @@ def run(ctx):
                 '(thorough: 5) gates of {H, S, CX} on 3 qubits is measured under every scripted bit and judged by Born probability, collapsed state and '
                 'the model; entangled-measurement circuits (generator-scrambling prefix of basis-state gates, Clifford circuit on a subset with classical '
                 'controls, every qubit measured or reset in random order, all other qubits probed on copies before each): a fixed set plus a VERIF_SEED set; '
-                'streams measure_deterministic / measure_product_phase count outcomes fixed by a product of >= 2 generators / whose Pauli product carries -1')
+                'streams measure_deterministic / measure_product_phase count outcomes fixed by a product of >= 2 generators / whose Pauli product carries -1.  '
+                'Multi-qubit CliffordGate objects (every gate cirq names, from_op_list words on 2-4 qubits) applied by act_on to the register of their own width and of one '
+                'more qubit with their qubits in EVERY order (fixed grid + VERIF_SEED cases; non-trivial = full width in a non-canonical order), replayed through the '
+                'model of then(pad); from_op_list over lists containing such operations with permuted qubit_order; the simulators end to end on them.  CH forms joined '
+                'and reordered: programs on real StabilizerChFormSimulationState objects (kronecker_product, transpose_to_qubit_order, swap, act_on) for every join order of '
+                '3 and 4 qubits and the rotations of 5 (fixed) + VERIF_SEED programs, judged after every step by the numpy Kronecker product of the sub-state vectors '
+                'transposed to canonical order, kron / reindex replayed through the model; CliffordSimulator(split_untangled_states=True) step states and final states on the '
+                'same grid for two qubit orders, and in every end-to-end case')
     ctx.assumptions += ['numpy reference simulation in vf/checks/c13.py (cirq.unitary of each gate applied by tensordot, projectors for measurement)',
                         'gate matrices transcribed in coq/Gates/GateSpecs.v', 'scripted seed object answers randint(2) only; any other request aborts the case']
     err = tables.regenerate(['TableauRules'])
@@ -1185,6 +1645,11 @@ def run(ctx):
     e2e_grid(ctx, cirq, classes, 6 if quick else 40)
     e2e_entangled(ctx, cirq, 6 if quick else 30, 6 if quick else 60)
     int_seed_stream(ctx, cirq)
+    cgate_order_stream(ctx, cirq, 40 if quick else 600)
+    oplist_stream(ctx, cirq, 30 if quick else 400)
+    e2e_cgate(ctx, cirq)
+    join_stream(ctx, cirq, 40 if quick else 600)
+    split_stream(ctx, cirq, 30 if quick else 400)
 
 
 def replay(ctx, data):
@@ -1202,6 +1667,17 @@ def replay(ctx, data):
         e2e_case(ctx, cirq, data['case'], cap=100000)
     elif k == 'int_seed':
         int_seed_stream(ctx, cirq)
+    elif k == 'oplist':
+        oplist_case(ctx, cirq, data)
+    elif k == 'split':
+        split_case(ctx, cirq, data['case'])
+    elif k == 'join':
+        jsteps, fails = join_walk(ctx, cirq, data['case'])
+        for f in fails:
+            print('FAIL', f)
+        bad = eval_joins(ctx, 'joinreplay', jsteps)
+        print('model disagreements (step):', bad)
+        return not fails and not bad
     elif k in ('group1',):
         group_1q(ctx, cirq)
     elif k in ('group', 'group_pair'):
